@@ -256,8 +256,8 @@ def conditionals_native(vc):
             return float(-2.0 * np.sum(np.log1p(z * z / 3)))
         return float(-0.5 * z @ A @ z)
 
-    wide = vc.bool("wide_bounds")
-    w = (30.0 if wide else 3.0) * sc
+    wide = vc.choice("bounds_width_in_scales", [3.0, 30.0, 3e3, 1e5])      # (a conditional may be very narrow relative to the box)
+    w = wide * sc
     bounds = [(float(mu[i] - w[i] * r.uniform(0.5, 1)), float(mu[i] + w[i] * r.uniform(0.5, 1))) for i in range(d)]
     point = mu + 0.2 * sc * r.normal(size=d)
     point = np.array([min(max(point[i], bounds[i][0]), bounds[i][1]) for i in range(d)])
@@ -275,7 +275,9 @@ def conditionals_native(vc):
             t = point.copy()
             t[i] = v
             return post(t)
-        fine = np.linspace(lo, hi, 20001)
+        # reference on a fine grid over the part of the box that can carry mass (the whole box unless it is huge)
+        f_lo, f_hi = (lo, hi) if wide <= 30.0 else (max(lo, mu[i] - 60 * sc[i]), min(hi, mu[i] + 60 * sc[i]))
+        fine = np.linspace(f_lo, f_hi, 20001)
         lf = np.array([line(v) for v in fine])
         peak = lf.max()
         dens = np.exp(lf - peak)
